@@ -27,6 +27,6 @@ else:
 n = len(rows)
 missed = sum(1 for r in rows if '| yes |' in r)
 s = re.sub(r'### 12\.5 Seeded changes \(\d+, written by independent sub-agents in \w+ waves\)',
-           f'### 12.5 Seeded changes ({n}, written by independent sub-agents in thirteen waves)', s)
+           f'### 12.5 Seeded changes ({n}, written by independent sub-agents in fifteen waves)', s)
 open(p, 'w').write(s)
 print(n, 'rows;', missed, 'missed at first')
